@@ -120,6 +120,41 @@ func CheckC15(c *Ctx) {
 			add(x+0.05+d, "midpoint-plus-10^-j")
 		}
 	}
+	// REDUCED-PRECISION values: every one-decimal score, threshold and midpoint rounded to a k-bit mantissa for EVERY
+	// k = 1..52 (k = 23: values that went through a float32 -- SQL REAL, protobuf float --, 10: half, 7: bfloat16),
+	// down and up, with 1-3 neighbours at that precision on either side; a Rating that "recovers" or re-rounds such
+	// values is wrong just below a threshold
+	{
+		trunc := func(x float64, k int) float64 { // keep k mantissa bits, round toward zero
+			b := math.Float64bits(x)
+			mask := ^uint64(0) << uint(52-k)
+			return math.Float64frombits(b & mask)
+		}
+		step := func(x float64, k int) float64 { // one unit in the k-th mantissa bit at x's exponent
+			_, e := math.Frexp(x)
+			return math.Ldexp(1, e-1-k)
+		}
+		var pts []float64
+		for k10 := 0; k10 <= 100; k10++ {
+			pts = append(pts, float64(k10)/10, float64(k10)/10+0.05, float64(k10)/10-0.05)
+		}
+		pts = append(pts, 0.0995, 0.0999, 3.95, 3.99, 6.95, 6.99, 8.95, 8.99, 9.95, 10.05)
+		for _, x := range pts {
+			if x <= 0 {
+				continue
+			}
+			for k := 1; k <= 52; k++ {
+				t := trunc(x, k)
+				d := step(x, k)
+				for j := -3; j <= 3; j++ {
+					add(t+float64(j)*d, "k-bit-mantissa-neighbourhood")
+				}
+			}
+			add(float64(float32(x)), "through-float32")
+			add(float64(math.Nextafter32(float32(x), 0)), "through-float32")
+			add(float64(math.Nextafter32(float32(x), 100)), "through-float32")
+		}
+	}
 	// every binary exponent with a few mantissa patterns, both signs (denormals included); every decimal magnitude
 	for e := -1074; e <= 1023; e++ {
 		for _, m := range []float64{1, 1.5, 1.25, 1.75, 1.0000000000000002, 1.9999999999999998} {
@@ -159,18 +194,28 @@ func CheckC15(c *Ctx) {
 	// sampled part: random bit patterns (every exponent) and random values in [-1,11]
 	c.Parallel("random", c.Pick(8_000_000, 600_000_000), 1<<14, func(w *Worker, i int) {
 		u := w.R.U64()
-		if i&1 == 0 {
+		switch i & 3 {
+		case 0:
 			one(w, math.Float64frombits(u), "random-bit-pattern")
-		} else {
+		case 1, 2:
 			x := -1 + 12*float64(u>>11)/float64(1<<53)
 			one(w, x, "random-in-[-1,11]")
+		default:
+			// a random value in [-1,11] that went through a float32 or keeps only 8-30 mantissa bits
+			x := -1 + 12*float64(u>>11)/float64(1<<53)
+			if u&1 == 0 {
+				one(w, float64(float32(x)), "random-through-float32")
+			} else {
+				k := 8 + int(u>>1)%23
+				one(w, math.Float64frombits(math.Float64bits(x)&(^uint64(0)<<uint(52-k))), "random-k-bit-mantissa")
+			}
 		}
 	})
 	for _, cl := range []string{"NONE", "LOW", "MEDIUM", "HIGH", "CRITICAL", "out-of-bounds"} {
 		c.Floor("oracle class "+cl, c.Counts["oracle:"+cl], 10)
 	}
 	c.SetReport(Report{
-		Rule:        "interval oracle of the statement evaluated on the exact real value of the float64 (math/big), applied to the three Rating functions (hence also their mutual agreement); error identity via errors.Is(ErrOutOfBoundsScore) and empty string. COMPLETE: all 101 one-decimal scores, each threshold 0/0.1/4/7/9/10 with 1-4 ulps below and above, +-1e-9, -0.0, +-smallest subnormal, +-Inf, +-MaxFloat64; every one-decimal score also as k*0.1 and as 0.1 added k times, with 1-4 ulps and +-10^-j (j=1..16) around it and around its midpoint to the next score; 2^k+j and c*2^32+j / c*2^16+j for small j (integer-conversion wrap-arounds); six mantissa patterns at EVERY binary exponent (-1074..1023, so every denormal magnitude) and three at every decimal exponent, both signs; sampled: random float64 bit patterns and random values in [-1,11]. NaN skipped (unspecified). distinct = distinct float64 bit patterns",
+		Rule:        "interval oracle of the statement evaluated on the exact real value of the float64 (math/big), applied to the three Rating functions (hence also their mutual agreement); error identity via errors.Is(ErrOutOfBoundsScore) and empty string. COMPLETE: all 101 one-decimal scores, each threshold 0/0.1/4/7/9/10 with 1-4 ulps below and above, +-1e-9, -0.0, +-smallest subnormal, +-Inf, +-MaxFloat64; every one-decimal score also as k*0.1 and as 0.1 added k times, with 1-4 ulps and +-10^-j (j=1..16) around it and around its midpoint to the next score; 2^k+j and c*2^32+j / c*2^16+j for small j (integer-conversion wrap-arounds); every one-decimal score, midpoint and near-threshold value rounded to a k-bit mantissa for every k = 1..52 with 3 neighbours at that precision either side (float32 / half / bfloat16 round trips); six mantissa patterns at EVERY binary exponent (-1074..1023, so every denormal magnitude) and three at every decimal exponent, both signs; sampled: random float64 bit patterns, random values in [-1,11], and such values through a float32 or cut to 8-30 mantissa bits. NaN skipped (unspecified). distinct = distinct float64 bit patterns",
 		Assumptions: []string{"none beyond math/big"},
 	})
 	c.Finish()
